@@ -49,20 +49,28 @@ def run(ctx):
                        "comments) at select-list, predicate, argument, VALUES, SET, DDL and alias positions × pairs of %d quote-free payloads (operators, keywords, comment openers, "
                        "brackets, semicolons, TAB, CR LF, U+3000, non-ASCII, astral, escapes) × all dialects; correspondence on tokens and trees; oracle: (1) the two trees are "
                        "equal once the payload-bearing leaf is masked, (2) that leaf carries exactly the written text, (3) the printed SQL contains it verbatim and parses back to the same tree, (4) comments "
-                       "leave no trace. distinct_nontrivial = distinct accepted trees" % (len(TEMPLATES), len(PAYLOADS)))
+                       "leave no trace; every payload occurs at every template and region kind at least once per run (quick: one drawn dialect; thorough: every dialect), random pairs on top. distinct_nontrivial = distinct accepted trees" % (len(TEMPLATES), len(PAYLOADS)))
     r = ctx.rng.fork("c06")
     cases = []
-    while len(cases) < n:
-        kinds, tmpl = r.choice(TEMPLATES)
-        kind = r.choice(kinds)
-        p1, p2 = r.choice(PAYLOADS), r.choice(PAYLOADS)
+
+    def add(kinds, tmpl, kind, p1, p2, d):
         if p1 == p2 or not ok_payload(kind, p1) or not ok_payload(kind, p2):
-            continue
+            return
         if kind == "bq" and (p1.strip("`") == "" or p2.strip("`") == ""):
-            continue
-        d = r.choice(pfam.DIALECTS)
+            return
         o, c, _ = REGIONS[kind]
         cases.append((d, kind, tmpl, p1, p2, tmpl.replace("{R}", o + p1 + c), tmpl.replace("{R}", o + p2 + c)))
+    # every payload once at every template and region kind (the dialect and the partner payload are drawn): a printer or parser rule that singles out ONE word
+    # at ONE position is a cell of this table, not a matter of luck; the thorough tier adds every dialect
+    for kinds, tmpl in TEMPLATES:
+        for kind in kinds:
+            for p1 in PAYLOADS:
+                for d in (pfam.DIALECTS if not ctx.quick else [r.choice(pfam.DIALECTS)]):
+                    add(kinds, tmpl, kind, p1, r.choice(PAYLOADS), d)
+    ctx.count("cases:systematic", len(cases))
+    while len(cases) < n + (0 if not ctx.quick else 3500):
+        kinds, tmpl = r.choice(TEMPLATES)
+        add(kinds, tmpl, r.choice(kinds), r.choice(PAYLOADS), r.choice(PAYLOADS), r.choice(pfam.DIALECTS))
     ra, _ = ctx.corr([pfam.req_parse(d, a) for d, _, _, _, _, a, _ in cases], stream="parse-a")
     rb, _ = ctx.corr([pfam.req_parse(d, b) for d, _, _, _, _, _, b in cases], stream="parse-b")
     ctx.corr(["L 7 %s" % E.enhex(a) for _, _, _, _, _, a, _ in cases[: n // 3]], cfg=None, stream="lex")
